@@ -230,6 +230,12 @@ func (s *fsm12) finish(ctx context.Context, c Conn) (State, error) {
 	case state := <-c.RecvHandshake():
 		close(state.Done)
 		if s.state.IsClient {
+			if s.currentFlight.IsLastSendFlight() {
+				// Session resumption: the client sent the last flight (5b), so it
+				// must retransmit it when the server's flight (4b) is seen again.
+				return StateSending, nil
+			}
+
 			return StateFinished, nil
 		}
 
